@@ -55,7 +55,7 @@ pub fn test_case(case: &TrainCase) -> TestResult {
     for s in &sentences {
         trainer.add_example(s);
     }
-    let model = match trainer.train(0.01, 1.0, train::solver_of(cfg.solver)) {
+    let model = match util::train_deterministic(|| trainer.train(0.01, 1.0, train::solver_of(cfg.solver))) {
         Ok(m) => m,
         Err(_) => return Ok(info.class(true, "train-returned-error")),
     };
